@@ -117,11 +117,35 @@ def image_level(ctx):
         ctx.count("image_same", (k, tuple(CG.canonical(sheet))))
         ctx.require("image produced from a decorated sheet is the same", {"sheet": CG.canonical(sheet)},
                     outs[0] == outs[1] == outs[2] and outs[0][1] is None, outs)
+    # decorations of any volume: well over 64 KiB of unrecognised / blank lines before FILE, after a TRACK line, before the last INDEX
+    for k in range(2 if ctx.quick else 8):
+        sheet = CG.random_sheet(rng, ntracks=rng.randint(2, 4))
+        sheet["bin"] = "d.bin"
+        canon = CG.canonical(sheet)
+        outs = []
+        with R.TempImage(("\n".join(canon) + "\n").encode("ascii"), "d.cue", {"d.bin": binb}) as path:
+            r = R.ls(path, "")
+            outs.append((r.out, r.exc_name))
+        log = ["REM ripper log line %05d: sector %d read ok, no errors detected" % (i, i * 13) for i in range(1400)] + [""] * 50
+        allowed, nlines = CG.junk_allowed_positions(sheet)
+        last_index = max(i for i, l in enumerate(canon) if l.startswith("INDEX"))
+        for where, pos in (("before FILE", 0), ("after first TRACK line", 2 if 2 in allowed else allowed[1]), ("before the last INDEX", last_index)):
+            lines = canon[:pos] + log + canon[pos:]
+            assert sum(len(l) + 1 for l in log) > 70000
+            with R.TempImage(("\n".join(lines) + "\n").encode("ascii"), "d.cue", {"d.bin": binb}) as path:
+                r = R.ls(path, "")
+                outs.append((r.out, r.exc_name))
+            ctx.count("image_same_big", (k, where, tuple(canon)), nontrivial=True)
+            ctx.require("image produced from a decorated sheet is the same (more than 64 KiB of unrecognised and blank lines %s)" % where,
+                        {"sheet": canon, "inserted_lines": len(log), "where": where}, outs[-1] == outs[0] and outs[0][1] is None, [o[0][:300] for o in (outs[0], outs[-1])])
     # not ASCII -> not treated as a cue sheet
     sheet = CG.random_sheet(rng, ntracks=2)
     sheet["bin"] = "d.bin"
     base = "\n".join(CG.canonical(sheet)) + "\n"
+    pad_rem = "".join("REM padding line %05d ...............................................\n" % i for i in range(1200))
     variants = {
+        "high_byte_after_64k": (pad_rem + base).encode("ascii") + b"REM caf\xe9\n",
+        "high_byte_after_64k_in_title": base.replace("TRACK 01", pad_rem + "TRACK 01").replace('TRACK 02 AUDIO', 'TRACK 02 AUDIO\nTITLE "na\xefve"').encode("latin-1"),
         "latin1_title": base.replace("TRACK 01", 'REM caf\xe9\nTRACK 01').encode("latin-1"),
         "utf8_title": base.replace("TRACK 01", 'REM café\nTRACK 01').encode("utf-8"),
         "utf8_bom": b"\xef\xbb\xbf" + base.encode("ascii"),
